@@ -70,8 +70,31 @@ theorem R2_refusals_genuine (c : Spsc.Cfg) (p : List Spsc.POp) (q : List Spsc.QO
   have I := Spsc.inv_run c as (Spsc.init p q) (Spsc.inv_init c p q)
   exact ⟨Spsc.push_refusal_genuine c s x I, Spsc.pop_refusal_genuine c s I⟩
 
-/-- **The memory orders in the source are the required ones** (translator `Gen/Orders.lean`, both ring classes, every
-producer and consumer method): this fails to build when an order is weakened. -/
+/-- **R2 (a refusal that was actually returned).** The producer, idle with `tryPush x` next, reads the LATEST `_tail` and
+completes the call: if that call returns `false` (0 pushed) the ring held exactly `C` items at the load; likewise a
+`tryPop` that returns `false` after reading the latest `_head` saw an empty ring. -/
+theorem R2_returned_refusals_genuine (c : Spsc.Cfg) (p : List Spsc.POp) (q : List Spsc.QOp) (as : List Spsc.Act) (x : Spsc.Val) :
+    let s := Spsc.run c (Spsc.init p q) as
+    (∀ rest, s.pPc = .idle → s.pTodo = .push x :: rest →
+        (Spsc.step c (Spsc.step c s (.pLoad s.tail)) .pStore).pRets = s.pRets ++ [0] → (Spsc.inflight s).length = c.C) ∧
+    (∀ rest, s.qPc = .idle → s.qTodo = .pop :: rest →
+        (Spsc.step c (Spsc.step c s (.qLoad s.head)) .qStore).qRets = s.qRets ++ [[]] → Spsc.inflight s = []) := by
+  intro s
+  have I := Spsc.inv_run c as (Spsc.init p q) (Spsc.inv_init c p q)
+  exact ⟨fun rest h1 h2 h3 => Spsc.push_returns_zero_fresh c s x rest I h1 h2 h3,
+         fun rest h1 h2 h3 => Spsc.pop_returns_empty_fresh c s rest I h1 h2 h3⟩
+
+/-- non-vacuity: a full 1-slot ring refuses the second push with 0 -/
+example :
+    let c : Spsc.Cfg := { C := 1, pAcq := true, qAcq := true, pRel := true, qRel := true }
+    let s := Spsc.run c (Spsc.init [.push 1, .push 2] []) [.pLoad 0, .pWrite, .pStore]
+    s.pPc = .idle ∧ s.pTodo = [.push 2] ∧ (Spsc.step c (Spsc.step c s (.pLoad s.tail)) .pStore).pRets = s.pRets ++ [0] := by
+  decide
+
+/-- **The accesses in the source are the modelled ones** (translator `Gen/Orders.lean`, both ring classes, every method): the
+memory orders are the required ones AND every method is exactly "load own counter, load the other counter, slot
+access(es), one store of the own counter" in that source order, with no other rows.  Fails to build when an order is
+weakened, when a method publishes before writing its slot or releases before reading it, or when rows are added/reordered. -/
 theorem C10_orders : Spsc.OrdersOK Gen.Orders.ring := by decide
 
 /-- **R3 (data-race freedom in the release/acquire view model).** With acquire loads of the other side's counter and
@@ -170,6 +193,48 @@ example : (BQ.entered { me := 0, todo := [.dequeue], pc := .enter, rets := [] }
   decide
 
 open Monitor in
+/-- **Q3d (draining a closed queue).** From a closed reachable state on, whatever the further schedule `more`: the items
+taken from then on are exactly a prefix of the queue content at that moment, in order; what remains queued is the rest;
+nothing is added.  Together with Q3c/Q3e (a take never waits on a closed queue: item if non-empty, `false` if empty),
+Q3a (nobody sleeps once `close()` returned) and `Q1_results_are_the_logs` (logs = return values): after `close()`, the
+next `k` successful takes return the `k` oldest queued items in order, and once the queue is empty every take returns `false`. -/
+theorem Q3_drain_after_close (cap : Nat) (ps : List (List BQ.Call)) (sched more : List Choice) :
+    let s := run (BQ.prog true) (BQ.init cap ps) sched
+    let s' := run (BQ.prog true) s more
+    s.data.closed = true →
+    ∃ taken, s'.data.takes.map (·.2) = s.data.takes.map (·.2) ++ taken ∧ taken ++ s'.data.q = s.data.q :=
+  fun hc => BQ.drain_after_close cap ps sched more hc
+
+/-- **Q3e.** A take that obtains the mutex on a closed EMPTY queue returns `false` without waiting and changes nothing. -/
+theorem Q3_closed_empty_returns_false (l : BQ.Loc) (d : BQ.Data) (rest : List BQ.Call) (c : BQ.Call)
+    (hc : c = .dequeue ∨ c = .dequeueFor ∨ c = .tryDequeue) (ht : l.todo = c :: rest) (hq : d.q = []) (hcl : d.closed = true) :
+    (BQ.entered l d).1.pc = .unlockRet (.item none) ∧ (BQ.entered l d).2 = d :=
+  BQ.entered_closed_empty l d rest c hc ht hq hcl
+
+open Monitor in
+/-- **Q4 (every reachable state, not only dead-locked ones).** In EVERY state reachable under every schedule: whenever a
+thread is asleep on a condition variable while its wait condition holds, a wake-up for that condition variable is already
+in the pipeline — some thread is a notifier between its state change and its `notify_one`, or a waiter of that condition
+variable that has been woken and has not yet re-evaluated its predicate, or is inside `close()` before the corresponding
+`notify_all`.  (All three kinds of thread are enabled or become enabled as soon as the mutex is released, so the sleeper's
+wake-up cannot be lost.)  The quantitative form is the credit invariant `BQ.InvK.credNE/credNF`: while the queue is open
+and somebody sleeps on `_condNotEmpty`, #queued items ≤ #wake-ups in the pipeline (symmetrically free slots for `_condNotFull`). -/
+theorem Q4_wakeup_pending_in_every_state (cap : Nat) (ps : List (List BQ.Call)) (sched : List Choice) :
+    let s := run (BQ.prog true) (BQ.init cap ps) sched
+    (∀ t, t < s.n →
+      (isAsleepOn BQ.NE (s.thr t) = true → BQ.predNE s.data = true →
+          ∃ u, u < s.n ∧ (BQ.creditOn BQ.NE (s.thr u) = true ∨ BQ.closerFor BQ.NE (s.thr u) = true)) ∧
+      (isAsleepOn BQ.NF (s.thr t) = true → BQ.predNF s.data = true →
+          ∃ u, u < s.n ∧ (BQ.creditOn BQ.NF (s.thr u) = true ∨ BQ.closerFor BQ.NF (s.thr u) = true))) ∧
+    ((∃ t, t < s.n ∧ isAsleepOn BQ.NE (s.thr t) = true) → s.data.closed = false →
+        s.data.q.length ≤ cnt (BQ.creditOn BQ.NE) s.thr s.n) ∧
+    ((∃ t, t < s.n ∧ isAsleepOn BQ.NF (s.thr t) = true) → s.data.closed = false →
+        s.data.cap ≤ s.data.q.length + cnt (BQ.creditOn BQ.NF) s.thr s.n) := by
+  intro s
+  have I := BQ.inv_run cap ps sched
+  exact ⟨fun t ht => BQ.wakeup_pending s I t ht, fun a b => by have := I.credNE a b; omega, fun a b => by have := I.credNF a b; omega⟩
+
+open Monitor in
 /-- **Q4 / Q3 (no lost wake-up).** In every reachable state of every schedule: if no thread can run (every thread is
 finished or asleep), then every thread asleep on `_condNotEmpty` has a false condition (queue empty and not closed) and
 every thread asleep on `_condNotFull` has a false condition (queue full and not closed).  No caller stays blocked while
@@ -230,6 +295,11 @@ theorem Q3_close_is_broadcast_instance (cap : Nat) (ps : List (List BQ.Call)) (s
 
 /-- the skeleton extracted from the working tree is the one the monitor model was written against -/
 theorem skeleton_conforms : Gen.BqSkel.skeleton = BQ.expected := by decide
+
+/-- the data members are the modelled ones (the translator additionally insists on `const std::size_t _maxSize;`, on no
+assignment to it, and on no member function it does not know) -/
+theorem members_conform :
+    Gen.BqSkel.members = ["_mutex", "_condNotEmpty", "_condNotFull", "_queue", "_maxSize", "_closed"] := by decide
 
 /-- the extracted skeleton satisfies the lost-wake-up discipline (writes of predicate variables under the mutex and
 followed by a notify, waits under the mutex, deque only touched under the mutex) -/
